@@ -866,7 +866,9 @@ def check_docs(ctx, docs, fmts=FORMATS, modes=MODES):
                     prop("output denotes '%s' but the input denotes '%s'" % (canon_obs(o_forest)[:300], want[:300]))
                 elif f == "binary":
                     d = sdec.get(out)
-                    if d is None and not (out == b"" and want == ""):
+                    if oracle_silent(ctx, "C20-binary-output", "sdecode x" + out.hex(), d):
+                        pass
+                    elif d is None and not (out == b"" and want == ""):
                         prop("binary output rejected by the independent decoder: " + out.hex()[:200])
                     elif d is not None and d != want:
                         prop("independent decoder reads '%s' from the output, input denotes '%s'" % (d[:300], want[:300]))
